@@ -511,7 +511,7 @@ def nontrivial(case, obs):
 def sample_fn(case, obs):
     if case["kind"] in ("enc", "from"):
         return {"kind": case["kind"], "newick": trees.newick(case["tree"], with_len=False), "rooted": case["rooted"],
-                "ns": case["ns"], "observed_edges": obs.get("edges", obs.get("splits"))[:6]}
+                "ns": case["ns"], "observed_edges": (obs.get("edges") or obs.get("splits") or [])[:6]}
     return {"case": case, "observed": obs}
 
 
@@ -586,12 +586,28 @@ def search(ctx, budget_s):
     ctx.notes.append("search: %d further cases through the oracle, no unlisted violation" % n)
 
 
+def gen_overwritten():
+    """True when coq/Gen/Bipartition.v is not what the translator derives from this run's source"""
+    import os
+    from dv import gen_bipartition
+    try:
+        want = gen_bipartition.generate(core.REPO)
+    except Exception:
+        return False          # fail-closed stub: handled by proof_stage
+    try:
+        with open(os.path.join(core.COQ, "Gen", "Bipartition.v")) as f:
+            return f.read() != want
+    except OSError:
+        return True
+
+
 def run(tier, seed, replay=None):
     ctx = core.Ctx("C01", tier, seed)
     ctx.assumptions = [
         "coq/Model/C01Model.v is a hand transcription of encode_bipartitions / collapse_basal_bifurcation / "
         "from_split_bitmasks / Bipartition construction and predicates on rose trees; tied by this correspondence run",
         "the bit-level functions are the translated ones (coq/Gen/BitFns.v, regenerated from the source each run)",
+        "encode_bipartitions (loop body, flags, second pass), compile_split_bitmask & co., the Bipartition predicates, taxon_bitmask / all_taxa_bitmask are ALSO translated from the AST on every run (coq/Gen/Bipartition.v) and proved equal to the model (Props/C01Gen.v); trusted there: the primitive semantics of coq/Model/C01GenPrims.v",
         "post-order stack traversal of encode_bipartitions is modelled by structural recursion (traversal order is C15's subject)",
         "every leaf taxon is a member of the tree's namespace (taxon_bitmask of a non-member raises KeyError)",
         "from_split_bitmasks: the leaf-to-root climb is modelled as the root-to-leaf descent to the deepest node covering the split (same node on masks that grow towards the root)",
@@ -606,7 +622,31 @@ def run(tier, seed, replay=None):
         print("oracle:", oracle(case, obs))
         print("model:", core.show_cases("C01", HEADER, "case_show", [to_coq(case, obs)]))
         return 0
-    ok = core.proof_stage(ctx, ["Props/C01.vo"], gen_needed=("BitFns",))
+    ok = core.proof_stage(ctx, ["Props/C01.vo", "Props/C01Gen.vo"], gen_needed=("BitFns", "Bipartition"))
+    if gen_overwritten():
+        # another check running concurrently regenerates coq/Gen from its own DV_REPO: build again
+        ctx.notes.append("coq/Gen/Bipartition.v was overwritten by a concurrent run during the build; proof stage repeated")
+        ctx.obligations = []
+        ok = core.proof_stage(ctx, ["Props/C01.vo", "Props/C01Gen.vo"], gen_needed=("BitFns", "Bipartition"))
+        if gen_overwritten():
+            ctx.obligation("coq/Gen/Bipartition.v stable during the build (no concurrent regeneration)", False)
+            ok = False
+    if ok:
+        # second theorem file: the generated code (coq/Gen/Bipartition.v) equals the model
+        res = core.props_check("C01", "Props/C01Gen.v")
+        if not res["ok"]:
+            ctx.obligation("Props/C01Gen.v compiles", False)
+            ctx.build_log = res["log"][-6000:]
+            ctx.notes.append("Props/C01Gen.v failed: %s" % core.failing_file(res["log"]))
+            ok = False
+        else:
+            for th in res["theorems"]:
+                ax = res["assumptions"].get(th)
+                good = ax is not None and not ax
+                ctx.obligation("theorem %s (generated code = model)" % th, good)
+                if not good:
+                    ctx.notes.append("theorem %s: Print Assumptions missing or axioms %s" % (th, ax))
+                    ok = False
     if not ok:
         core.broken_proof(ctx, search)
     rng = ctx.rng
